@@ -14,7 +14,7 @@ func init() {
 	register(&Property{
 		ID:          "C06",
 		Engines:     []string{"cfg"},
-		Explanation: "Segmentation independence is an equivalence over all (message, cut) pairs and is not decided; what is decided is the mechanism it rests on. Parse resumes by prepending the carried bytes, so a cut can only matter through per-call local state, the carry/rebase code, or an exit that skips the carry: the only values carried from one byte to the next are the index, the token start and the data slice — everything else lives in Parser fields (O1); the loop starts at the carried length with token start 0, and the carry block stores exactly data[start:] (size len(data)-start) when something is left, keeps the buffer when start==0 and releases it when nothing is left (O2); the only success returns are the empty-input guard, the upgrade hand-off and the return behind the carry block, and body states leave the loop only on their 'not enough bytes yet' edge into the carry block (O3); only Parse writes the carry buffer (O4). Before the incoming bytes are joined to the carried ones Parse rejects only on the terminal state and on ReadLimit (O5); the index and the token start move only in the allowed forms, never by look-ahead (O6).",
+		Explanation: "Segmentation independence is an equivalence over all (message, cut) pairs and is not decided; what is decided is the mechanism it rests on. Parse resumes by prepending the carried bytes, so a cut can only matter through per-call local state, the carry/rebase code, or an exit that skips the carry: the only values carried from one byte to the next are the index, the token start and the data slice — everything else lives in Parser fields (O1); the loop starts at the carried length with token start 0, and the carry block stores exactly data[start:] (size len(data)-start) when something is left, keeps the buffer when start==0 and releases it when nothing is left (O2); the only success returns are the empty-input guard, the upgrade hand-off and the return behind the carry block, and body states leave the loop only on their 'not enough bytes yet' edge into the carry block (O3); only Parse writes the carry buffer (O4). Before the incoming bytes are joined to the carried ones Parse rejects only on the terminal state and on ReadLimit (O5); the index and the token start move only in the allowed forms, never by look-ahead (O6). No look-ahead byte loads (O7).",
 		NotCovered:  "equality of the event sequences themselves; the per-state token logic (start = i versus i+1 is value-level); ReadLimit, which by construction makes rejection depend on segmentation and is excluded by the property's own bound",
 		Run:         runC06,
 	})
